@@ -41,12 +41,18 @@ Inductive xref :=
 | XImp (ns : option N) (loc : option str)    (* <xsd:import namespace= schemaLocation=> *)
 | XInc (loc : str).                           (* <xsd:include schemaLocation=> *)
 
-Record xschema := mkX { x_tns : option N; x_refs : list xref }.
+Definition qn := (option N * N)%type.     (* (target namespace, name with its kind) *)
+
+Record xschema := mkX { x_tns : option N; x_refs : list xref;
+                        x_decls : list N }.   (* top-level element / type declarations *)
+
+Definition own_decls (x : xschema) : list qn := map (fun n => (x_tns x, n)) (x_decls x).
 
 Inductive doc :=
-| DWsdl (imps : list str) (types : list (list xschema))  (* wsdl:import locations in document
-                                                            order; one list of schema roots
-                                                            per <wsdl:types> *)
+| DWsdl (imps : list str) (types : list (list xschema)) (names : list N)
+                                     (* wsdl:import locations in document order; one list of
+                                        schema roots per <wsdl:types>; the qualified names of
+                                        its messages, port types and bindings *)
 | DXsd (x : xschema)
 | DBad.                                                   (* bytes that are not well-formed XML *)
 
@@ -90,7 +96,23 @@ Definition slots_of (t : sid) (n : nat) : list slot := map (fun i => (t, i)) (se
 
 (* loaded_schemata and the [opened] flags.  The flags are kept as the list
    of NOT yet opened import/include objects of the existing instances. *)
-Record sst := mkS { s_memo : list (str * xschema); s_rem : list slot }.
+Record sst := mkS { s_memo : list (str * xschema); s_rem : list slot;
+                    s_tab : sid -> list qn;    (* the element/type tables of each Schema object *)
+                    s_shadow : bool }.         (* ghost: some located import was answered by the
+                                                  collection itself, its location ignored *)
+
+Definition upd (f : sid -> list qn) (t : sid) (v : list qn) : sid -> list qn :=
+  fun t' => if sid_eqb t' t then v else f t'.
+
+Definition set_rem (s : sst) (rem : list slot) : sst := mkS (s_memo s) rem (s_tab s) (s_shadow s).
+(* Schema.merge(imported): what the other has and we lack *)
+Definition merge_tab (s : sst) (self t : sid) : sst :=
+  mkS (s_memo s) (s_rem s) (upd (s_tab s) self (s_tab s self ++ s_tab s t)) (s_shadow s).
+Definition set_shadow (s : sst) : sst := mkS (s_memo s) (s_rem s) (s_tab s) true.
+(* Schema.__init__ of a downloaded document *)
+Definition add_inst (u : str) (x : xschema) (s : sst) : sst :=
+  mkS ((u, x) :: s_memo s) (slots_of (SUrl u) (length (x_refs x)) ++ s_rem s)
+      (upd (s_tab s) (SUrl u) (own_decls x)) (s_shadow s).
 
 (* SchemaCollection.add: one entry per target namespace, later roots are
    poured into the first one of the same namespace *)
@@ -98,7 +120,7 @@ Fixpoint add_schema (x : xschema) (cont : list xschema) : list xschema :=
   match cont with
   | [] => [x]
   | y :: rest => if optN_eqb (x_tns y) (x_tns x)
-                 then mkX (x_tns y) (x_refs y ++ x_refs x) :: rest
+                 then mkX (x_tns y) (x_refs y ++ x_refs x) (x_decls y ++ x_decls x) :: rest
                  else y :: add_schema x rest
   end.
 Definition consolidate (roots : list xschema) : list xschema :=
@@ -117,12 +139,30 @@ Fixpoint cont_slots (j : nat) (cont : list xschema) : list slot :=
   | y :: rest => slots_of (SInl j) (length (x_refs y)) ++ cont_slots (S j) rest
   end.
 
+Definition init_sst (cont : list xschema) : sst :=
+  mkS [] (cont_slots 0 cont)
+      (fun t => match t with SInl j => nth j (map own_decls cont) [] | SUrl _ => [] end) false.
+
+(* SchemaCollection.merge: the tables of all members *)
+Definition final_tab (roots : list xschema) (s : sst) : list qn :=
+  flat_map (fun j => s_tab s (SInl j)) (seq 0 (length (consolidate roots))).
+
 (* WSDL level *)
 Record tyobj := mkT { t_owner : str; t_roots : list xschema }.     (* a wsdl.Types object *)
-Record dinfo := mkD { d_wsdl : bool; d_types : list nat; d_xroot : option xschema }.
+Record dinfo := mkD { d_wsdl : bool; d_types : list nat; d_xroot : option xschema;
+                      d_names : list N }.            (* messages / port_types / bindings keys *)
 Record wst := mkW { w_memo : list (str * dinfo);     (* imported_definitions *)
                     w_heap : list tyobj;             (* Types objects, shared by reference *)
-                    w_built : list str }.            (* Definitions whose .schema is set *)
+                    w_built : list (str * list qn);  (* Definitions whose .schema is set, with
+                                                        the tables of that schema *)
+                    w_cyc : bool;                    (* ghost: a wsdl:import named a document
+                                                        whose construction is in progress *)
+                    w_shadow : bool }.               (* ghost: see s_shadow *)
+
+Definition is_built (u : str) (s : wst) : bool :=
+  match lookup u (w_built s) with Some _ => true | None => false end.
+Definition schema_of (u : str) (s : wst) : list qn :=
+  match lookup u (w_built s) with Some t => t | None => [] end.
 
 Fixpoint set_memo (u : str) (d : dinfo) (l : list (str * dinfo)) : list (str * dinfo) :=
   match l with
@@ -141,26 +181,45 @@ Definition self_types (u : str) (s : wst) : list nat :=
   match lookup u (w_memo s) with Some d => d_types d | None => [] end.
 Definition set_types (u : str) (ts : list nat) (s : wst) : wst :=
   match lookup u (w_memo s) with
-  | Some d => mkW (set_memo u (mkD (d_wsdl d) ts (d_xroot d)) (w_memo s)) (w_heap s) (w_built s)
+  | Some d => mkW (set_memo u (mkD (d_wsdl d) ts (d_xroot d) (d_names d)) (w_memo s)) (w_heap s)
+                  (w_built s) (w_cyc s) (w_shadow s)
   | None => s
   end.
+Definition self_names (u : str) (s : wst) : list N :=
+  match lookup u (w_memo s) with Some d => d_names d | None => [] end.
+Definition set_names (u : str) (ns : list N) (s : wst) : wst :=
+  match lookup u (w_memo s) with
+  | Some d => mkW (set_memo u (mkD (d_wsdl d) (d_types d) (d_xroot d) ns) (w_memo s)) (w_heap s)
+                  (w_built s) (w_cyc s) (w_shadow s)
+  | None => s
+  end.
+Definition set_heap (h : list tyobj) (s : wst) : wst :=
+  mkW (w_memo s) h (w_built s) (w_cyc s) (w_shadow s).
 
-(* Import.import_definitions: definitions.types += d.types *)
+(* Import.import_definitions: definitions.types += d.types;
+   definitions.messages/port_types/bindings.update(d....) *)
 Definition import_definitions (self : str) (d : dinfo) (s : wst) : wst :=
-  set_types self (self_types self s ++ d_types d) s.
+  set_names self (self_names self s ++ d_names d) (set_types self (self_types self s ++ d_types d) s).
 
-(* Import.import_schema: the schema root goes into a new Types object of the
-   importer when it has none, else into the LAST one of its list, whoever
-   owns it *)
+(* Import.import_schema: the schema root goes into the LAST Types object of
+   the importer's list that the importer itself owns
+   (own = [t for t in definitions.types if t.definitions is definitions]);
+   when it owns none, into a new Types object appended to its list *)
+Definition own_types (self : str) (s : wst) : list nat :=
+  filter (fun tid => match nth_error (w_heap s) tid with
+                     | Some t => str_eqb (t_owner t) self
+                     | None => false
+                     end) (self_types self s).
+
 Definition import_schema (self : str) (d : dinfo) (s : wst) : wst :=
   match d_xroot d with
   | None => s
   | Some x =>
-    match self_types self s with
+    match own_types self s with
     | [] => let tid := length (w_heap s) in
-            set_types self [tid] (mkW (w_memo s) (w_heap s ++ [mkT self [x]]) (w_built s))
+            set_types self (self_types self s ++ [tid]) (set_heap (w_heap s ++ [mkT self [x]]) s)
     | ts => let tid := last ts O in
-            mkW (w_memo s) (set_nth tid (fun t => mkT (t_owner t) (t_roots t ++ [x])) (w_heap s)) (w_built s)
+            set_heap (set_nth tid (fun t => mkT (t_owner t) (t_roots t ++ [x])) (w_heap s)) s
     end
   end.
 
@@ -168,7 +227,7 @@ Definition import_schema (self : str) (d : dinfo) (s : wst) : wst :=
    Types objects t with t.local(), i.e. whose owner has no schema yet *)
 Definition local_roots (u : str) (s : wst) : list xschema :=
   flat_map (fun tid => match nth_error (w_heap s) tid with
-                       | Some t => if mem_str (t_owner t) (w_built s) then [] else t_roots t
+                       | Some t => if is_built (t_owner t) s then [] else t_roots t
                        | None => []
                        end) (self_types u s).
 
@@ -180,7 +239,22 @@ Fixpoint alloc_types (u : str) (types : list (list xschema)) (heap : list tyobj)
                      (tid :: ts, h)
   end.
 
-Definition mark_built (u : str) (s : wst) : wst := mkW (w_memo s) (w_heap s) (u :: w_built s).
+(* the tables of the schemas merged in at the end of build_schema:
+   for s in (t.schema() for t in self.types if t.imported()): self.schema.merge(s) *)
+Definition imported_tabs (u : str) (s : wst) : list qn :=
+  flat_map (fun tid => match nth_error (w_heap s) tid with
+                       | Some t => schema_of (t_owner t) s
+                       | None => []
+                       end) (self_types u s).
+
+Definition mark_built (u : str) (tab : list qn) (sh : bool) (s : wst) : wst :=
+  mkW (w_memo s) (w_heap s) ((u, tab) :: w_built s) (w_cyc s) (w_shadow s || sh).
+Definition reg_wsdl (u : str) (tids : list nat) (names : list N) (heap : list tyobj) (s : wst) : wst :=
+  mkW ((u, mkD true tids None names) :: w_memo s) heap (w_built s) (w_cyc s) (w_shadow s).
+Definition reg_xsd (u : str) (x : xschema) (s : wst) : wst :=
+  mkW ((u, mkD false [] (Some x) []) :: w_memo s) (w_heap s) (w_built s) (w_cyc s) (w_shadow s).
+Definition set_cyc (s : wst) : wst := mkW (w_memo s) (w_heap s) (w_built s) true (w_shadow s).
+Definition wst0 : wst := mkW [] [] [] false false.
 
 Definition xsd_refs_of (d : doc) : nat := match d with DXsd x => length (x_refs x) | _ => 0 end.
 Definition total_refs (univ : list (str * doc)) : nat :=
@@ -205,7 +279,7 @@ Section Loader.
           (* Include.__applytns *)
           let r := if incl then
                      match x_tns x with
-                     | None => Some (mkX tns (x_refs x))
+                     | None => Some (mkX tns (x_refs x) (x_decls x))
                      | Some t => if optN_eqb tns (Some t) then Some x else None
                      end
                    else Some x in
@@ -213,10 +287,9 @@ Section Loader.
           | None => (Raised 2, io1)
           | Some x' =>
               (* Schema.__init__: loaded_schemata[baseurl] = self, then build *)
-              (Ok (Some (SUrl u),
-                   mkS ((u, x') :: s_memo s) (slots_of (SUrl u) (length (x_refs x')) ++ s_rem s)), io1)
+              (Ok (Some (SUrl u), add_inst u x' s), io1)
           end
-      | DWsdl _ _ => (Raised 3, io1)
+      | DWsdl _ _ _ => (Raised 3, io1)
       | DBad => (Raised 1, io1)
       end
     end.
@@ -233,7 +306,7 @@ Section Loader.
                      | SUrl _ => None
                      end in
         match loc_j with
-        | Some j => (Ok (Some (SInl j), s), io)
+        | Some j => (Ok (Some (SInl j), match loc with Some _ => set_shadow s | None => s end), io)
         | None =>
           match loc with
           | None => (Ok (None, s), io)
@@ -264,12 +337,13 @@ Section Loader.
         if negb (mem_slot (self, i) (s_rem s))
         then open_refs rec cont owner self tns base (S i) rest s io      (* if self.opened: return *)
         else
-          let s1 := mkS (s_memo s) (remove_slot (self, i) (s_rem s)) in  (* self.opened = True *)
+          let s1 := set_rem s (remove_slot (self, i) (s_rem s)) in       (* self.opened = True *)
           match target cont owner self tns base r s1 io with
           | (Ok (None, s2), io2) => open_refs rec cont owner self tns base (S i) rest s2 io2
           | (Ok (Some t, s2), io2) =>
               match rec t s2 io2 with
-              | (Ok s3, io3) => open_refs rec cont owner self tns base (S i) rest s3 io3
+              | (Ok s3, io3) =>                                          (* self.merge(imported) *)
+                  open_refs rec cont owner self tns base (S i) rest (merge_tab s3 self t) io3
               | (e, io3) => (e, io3)
               end
           | (Raised k, io2) => (Raised k, io2)
@@ -321,7 +395,7 @@ Section Loader.
      roots, each built with base self.url *)
   Definition build_schema (owner : str) (roots : list xschema) (io : IO) : outcome sst * IO :=
     let cont := consolidate roots in
-    open_all cont owner (schema_fuel cont) (seq 0 (length cont)) (mkS [] (cont_slots 0 cont)) io.
+    open_all cont owner (schema_fuel cont) (seq 0 (length cont)) (init_sst cont) io.
 
   (* Definitions.open_imports / wsdl Import.load *)
   Fixpoint loop_imports (rec : str -> wst -> IO -> outcome wst * IO) (self : str)
@@ -331,7 +405,8 @@ Section Loader.
     | loc :: rest =>
         let u := join self loc in
         let r := match lookup u (w_memo s) with
-                 | Some _ => (Ok s, io)                       (* d = imported_definitions.get(url) *)
+                 | Some _ => (Ok (if is_built u s then s else set_cyc s), io)
+                                                              (* d = imported_definitions.get(url) *)
                  | None => rec u s io                         (* d = Definitions(url, .., memo) *)
                  end in
         match r with
@@ -360,15 +435,17 @@ Section Loader.
           | DXsd x =>
               (* a schema document under wsdl:import: a Definitions without
                  children whose build_schema builds an empty schema *)
-              (Ok (mark_built u (mkW ((u, mkD false [] (Some x)) :: w_memo s) (w_heap s) (w_built s))), io1)
-          | DWsdl imps types =>
+              (Ok (mark_built u [] false (reg_xsd u x s)), io1)
+          | DWsdl imps types names =>
               let '(tids, heap) := alloc_types u types (w_heap s) in
               (* imported_definitions[url] = self, BEFORE open_imports *)
-              let s1 := mkW ((u, mkD true tids None) :: w_memo s) heap (w_built s) in
+              let s1 := reg_wsdl u tids names heap s in
               match loop_imports (load_defs f) u imps s1 io1 with
               | (Ok s2, io2) =>
                   match build_schema u (local_roots u s2) io2 with
-                  | (Ok _, io3) => (Ok (mark_built u s2), io3)
+                  | (Ok s3, io3) =>
+                      (Ok (mark_built u (final_tab (local_roots u s2) s3 ++ imported_tabs u s2)
+                                      (s_shadow s3) s2), io3)
                   | (Raised k, io3) => (Raised k, io3)
                   | (OutOfFuel, io3) => (OutOfFuel, io3)
                   end
@@ -379,7 +456,7 @@ Section Loader.
     end.
 
   Definition load_root (root : str) (io : IO) : outcome wst * IO :=
-    load_defs (S (length univ)) root (mkW [] [] []) io.
+    load_defs (S (length univ)) root wst0 io.
 End Loader.
 
 (* ------------------------------------------------------------------ *)
@@ -457,6 +534,10 @@ Definition client_load (W : world) (root : str) (ocache : bool) (i : io) : outco
 
 Definition io0 : io := mkIO [] [] [] 0 false.
 
+(* what a constructed client knows: the keys of messages/port_types/bindings
+   and of the schema's element/type tables of the root Definitions *)
+Definition collected (root : str) (s : wst) : list N * list qn := (self_names root s, schema_of root s).
+
 (* ------------------------------------------------------------------ *)
 (* SPECIFICATION (from the property text)                              *)
 (* ------------------------------------------------------------------ *)
@@ -496,7 +577,7 @@ Definition refs_of_x (x : xschema) : list str :=
 
 Definition doc_locs (d : doc) : list str :=
   match d with
-  | DWsdl imps types => imps ++ flat_map (flat_map refs_of_x) types
+  | DWsdl imps types _ => imps ++ flat_map (flat_map refs_of_x) types
   | DXsd x => refs_of_x x
   | DBad => []
   end.
@@ -527,7 +608,7 @@ Definition fetches (log : list event) : list (dom * str) :=
 
 Definition all_absolute (W : world) : bool :=
   forallb (fun e => match snd (snd e) with
-                    | DWsdl _ types => forallb (forallb (fun x => forallb has_scheme (refs_of_x x))) types
+                    | DWsdl _ types _ => forallb (forallb (fun x => forallb has_scheme (refs_of_x x))) types
                     | DXsd x => forallb has_scheme (refs_of_x x)
                     | DBad => true
                     end) (w_docs W).
